@@ -37,7 +37,9 @@ ReorderOps == {RO(co, ig, ko) : co \in {<<"b", "a">>, <<"b">>, <<"b", "z">>, <<"
 FactorOps == {FC0(c) : c \in {"a", "b", "duration"}}
              \cup {FCv("a", v) : v \in {<<"x">>, <<"x", "1">>, <<"q">>}}
              \cup {FCvn("a", <<"x">>, <<"m">>), FCvn("a", <<"x", "1">>, <<"m", "n">>), FCvn("b", <<"y", "x">>, <<"n", "m">>)}
-MapA == {<< <<"x", "X">>, <<"y", "Y">> >>, << <<"x", "X">>, <<"1", "I">>, <<"y", "Y">> >>, << <<"1", "I">> >>}
+\* (last: a key no table holds is listed twice with different values - the rows of the other keys are still prescribed)
+MapA == {<< <<"x", "X">>, <<"y", "Y">> >>, << <<"x", "X">>, <<"1", "I">>, <<"y", "Y">> >>, << <<"1", "I">> >>,
+         << <<"q", "Q1">>, <<"q", "Q2">>, <<"x", "X">>, <<"y", "Y">>, <<"1", "I">> >>}
 RemapOps == {RM(<<"a">>, <<"m">>, ml, ig) : ml \in MapA, ig \in B}
             \cup {RM(<<"a", "b">>, <<"m", "n">>, << <<"x", "x", "P", "Q">>, <<"x", "y", "R", "S">>, <<"1", "n/a", "T", "U">> >>, ig) : ig \in B}
             \cup {RM(<<"a">>, <<"b", "m">>, << <<"x", "X", "P">>, <<"y", "Y", "Q">>, <<"1", "I", "R">> >>, ig) : ig \in B}
@@ -134,6 +136,9 @@ P7 == Row(L1, <<"1", "6", "x", "x">>)
 P8 == Row(L1, <<"2", "1", "x", "x">>)
 P9 == Row(L1, <<"4", "1", "x", "x">>)
 P10 == Row(L1, <<"2", "6", "x", "x">>)
+\* an event whose onset is not known
+P11 == Row(L1, <<"n/a", "1", "x", "y">>)
+NoOnset == {[cols |-> L1, rows |-> r] : r \in {<<P11>>, <<P1[1], P11, P1[3]>>, <<P11, P1[1]>>}}
 \* ... the longest event first, or in the MIDDLE of the run
 LongFirst == {[cols |-> L1, rows |-> r] : r \in {<<P7, P8>>, <<P7, P8, P9>>, <<P1[1], P10, P9>>, <<P1[6], P1[1], P10, P9, P1[6]>>}}
 L2 == <<"b", "a", "c">>
@@ -146,9 +151,9 @@ P4 == <<Row(L4, <<"1", "p", "x", "1", "x">>), Row(L4, <<"1", "q", "x", "2", "x">
 Seqs(pool, n) == UNION {[1..k -> Range(pool)] : k \in 0..n}
 Tables(L, pool, n) == {[cols |-> L, rows |-> r] : r \in Seqs(pool, n)}
 Pre(pool, k) == SubSeq(pool, 1, k)
-TablesQuick == LongFirst \cup Tables(L1, Pre(P1, 5), 2) \cup Tables(L2, P2, 2) \cup Tables(L3, P3, 2) \cup Tables(L4, P4, 1)
+TablesQuick == LongFirst \cup NoOnset \cup Tables(L1, Pre(P1, 5), 2) \cup Tables(L2, P2, 2) \cup Tables(L3, P3, 2) \cup Tables(L4, P4, 1)
                \cup {[cols |-> L1, rows |-> r] : r \in {<<P1[1], P1[2], P1[3]>>, <<P1[1], P1[3], P1[3], P1[6]>>, <<P1[4], P1[1], P1[1], P1[2]>>}}
-TablesThorough == LongFirst \cup Tables(L1, P1, 3) \cup Tables(L2, P2, 3) \cup Tables(L3, P3, 3) \cup Tables(L4, P4, 3)
+TablesThorough == LongFirst \cup NoOnset \cup Tables(L1, P1, 3) \cup Tables(L2, P2, 3) \cup Tables(L3, P3, 3) \cup Tables(L4, P4, 3)
                   \cup {[cols |-> L1, rows |-> r] : r \in {<<P1[1], P1[3], P1[3], P1[6]>>, <<P1[4], P1[1], P1[1], P1[2]>>, <<P1[1], P1[1], P1[2], P1[3], P1[3]>>}}
 UnitTuplesQuick == {<<t>> : t \in TablesQuick}
 UnitTuplesThorough == {<<t>> : t \in TablesThorough}
